@@ -53,3 +53,110 @@
     #[kani::proof] #[kani::stub(icon_estimate, icon_stub)] fn c01_cpc_icon_nest_lb3_le_lb2_lgk_15_26() { cpc_nest(15, 26, true, false, NumStdDev::Two, NumStdDev::Three); }
     #[kani::proof] #[kani::stub(icon_estimate, icon_stub)] fn c01_cpc_icon_nest_ub1_le_ub2_lgk_15_26() { cpc_nest(15, 26, true, true, NumStdDev::One, NumStdDev::Two); }
     #[kani::proof] #[kani::stub(icon_estimate, icon_stub)] fn c01_cpc_icon_nest_ub2_le_ub3_lgk_15_26() { cpc_nest(15, 26, true, true, NumStdDev::Two, NumStdDev::Three); }
+    // nesting in kappa at ONE concrete lg_k per harness (table entry, sqrt(k), eps are then constants; coupon count and estimate stay
+    // symbolic over their full domain): complete for that lg_k.  The quick tier runs the lg_k of the two formula branches' ends
+    // (4, 14: side tables; 15, 26: asymptotic constant); the symbolic-lg_k harnesses above cover every lg_k in the thorough tier.
+    fn cpc_nest_at(lg_k: u8, merge: bool, upper: bool) {
+        let c: u32 = kani::any(); kani::assume(c > 0);
+        let h: f64 = kani::any(); kani::assume(h.is_finite() && h >= c as f64);
+        unsafe { C01_ICON = h; }
+        if upper {
+            let u1 = upper_bound(merge, h, lg_k, c, NumStdDev::One); let u2 = upper_bound(merge, h, lg_k, c, NumStdDev::Two); let u3 = upper_bound(merge, h, lg_k, c, NumStdDev::Three);
+            assert!(u1 <= u2); assert!(u2 <= u3);
+        } else {
+            let l1 = lower_bound(merge, h, lg_k, c, NumStdDev::One); let l2 = lower_bound(merge, h, lg_k, c, NumStdDev::Two); let l3 = lower_bound(merge, h, lg_k, c, NumStdDev::Three);
+            assert!(l3 <= l2); assert!(l2 <= l1);
+        }
+    }
+    #[kani::proof] fn c01_cpc_hip_nest_lb_at_lgk_4() { cpc_nest_at(4, false, false); }
+    #[kani::proof] fn c01_cpc_hip_nest_ub_at_lgk_4() { cpc_nest_at(4, false, true); }
+    #[kani::proof] #[kani::stub(icon_estimate, icon_stub)] fn c01_cpc_icon_nest_lb_at_lgk_4() { cpc_nest_at(4, true, false); }
+    #[kani::proof] #[kani::stub(icon_estimate, icon_stub)] fn c01_cpc_icon_nest_ub_at_lgk_4() { cpc_nest_at(4, true, true); }
+    #[kani::proof] fn c01_cpc_hip_nest_lb_at_lgk_14() { cpc_nest_at(14, false, false); }
+    #[kani::proof] fn c01_cpc_hip_nest_ub_at_lgk_14() { cpc_nest_at(14, false, true); }
+    #[kani::proof] #[kani::stub(icon_estimate, icon_stub)] fn c01_cpc_icon_nest_lb_at_lgk_14() { cpc_nest_at(14, true, false); }
+    #[kani::proof] #[kani::stub(icon_estimate, icon_stub)] fn c01_cpc_icon_nest_ub_at_lgk_14() { cpc_nest_at(14, true, true); }
+    #[kani::proof] fn c01_cpc_hip_nest_lb_at_lgk_15() { cpc_nest_at(15, false, false); }
+    #[kani::proof] fn c01_cpc_hip_nest_ub_at_lgk_15() { cpc_nest_at(15, false, true); }
+    #[kani::proof] #[kani::stub(icon_estimate, icon_stub)] fn c01_cpc_icon_nest_lb_at_lgk_15() { cpc_nest_at(15, true, false); }
+    #[kani::proof] #[kani::stub(icon_estimate, icon_stub)] fn c01_cpc_icon_nest_ub_at_lgk_15() { cpc_nest_at(15, true, true); }
+    #[kani::proof] fn c01_cpc_hip_nest_lb_at_lgk_26() { cpc_nest_at(26, false, false); }
+    #[kani::proof] fn c01_cpc_hip_nest_ub_at_lgk_26() { cpc_nest_at(26, false, true); }
+    #[kani::proof] #[kani::stub(icon_estimate, icon_stub)] fn c01_cpc_icon_nest_lb_at_lgk_26() { cpc_nest_at(26, true, false); }
+    #[kani::proof] #[kani::stub(icon_estimate, icon_stub)] fn c01_cpc_icon_nest_ub_at_lgk_26() { cpc_nest_at(26, true, true); }
+    #[kani::proof] fn c01_cpc_hip_nest_lb_at_lgk_5() { cpc_nest_at(5, false, false); }
+    #[kani::proof] fn c01_cpc_hip_nest_ub_at_lgk_5() { cpc_nest_at(5, false, true); }
+    #[kani::proof] #[kani::stub(icon_estimate, icon_stub)] fn c01_cpc_icon_nest_lb_at_lgk_5() { cpc_nest_at(5, true, false); }
+    #[kani::proof] #[kani::stub(icon_estimate, icon_stub)] fn c01_cpc_icon_nest_ub_at_lgk_5() { cpc_nest_at(5, true, true); }
+    #[kani::proof] fn c01_cpc_hip_nest_lb_at_lgk_6() { cpc_nest_at(6, false, false); }
+    #[kani::proof] fn c01_cpc_hip_nest_ub_at_lgk_6() { cpc_nest_at(6, false, true); }
+    #[kani::proof] #[kani::stub(icon_estimate, icon_stub)] fn c01_cpc_icon_nest_lb_at_lgk_6() { cpc_nest_at(6, true, false); }
+    #[kani::proof] #[kani::stub(icon_estimate, icon_stub)] fn c01_cpc_icon_nest_ub_at_lgk_6() { cpc_nest_at(6, true, true); }
+    #[kani::proof] fn c01_cpc_hip_nest_lb_at_lgk_7() { cpc_nest_at(7, false, false); }
+    #[kani::proof] fn c01_cpc_hip_nest_ub_at_lgk_7() { cpc_nest_at(7, false, true); }
+    #[kani::proof] #[kani::stub(icon_estimate, icon_stub)] fn c01_cpc_icon_nest_lb_at_lgk_7() { cpc_nest_at(7, true, false); }
+    #[kani::proof] #[kani::stub(icon_estimate, icon_stub)] fn c01_cpc_icon_nest_ub_at_lgk_7() { cpc_nest_at(7, true, true); }
+    #[kani::proof] fn c01_cpc_hip_nest_lb_at_lgk_8() { cpc_nest_at(8, false, false); }
+    #[kani::proof] fn c01_cpc_hip_nest_ub_at_lgk_8() { cpc_nest_at(8, false, true); }
+    #[kani::proof] #[kani::stub(icon_estimate, icon_stub)] fn c01_cpc_icon_nest_lb_at_lgk_8() { cpc_nest_at(8, true, false); }
+    #[kani::proof] #[kani::stub(icon_estimate, icon_stub)] fn c01_cpc_icon_nest_ub_at_lgk_8() { cpc_nest_at(8, true, true); }
+    #[kani::proof] fn c01_cpc_hip_nest_lb_at_lgk_9() { cpc_nest_at(9, false, false); }
+    #[kani::proof] fn c01_cpc_hip_nest_ub_at_lgk_9() { cpc_nest_at(9, false, true); }
+    #[kani::proof] #[kani::stub(icon_estimate, icon_stub)] fn c01_cpc_icon_nest_lb_at_lgk_9() { cpc_nest_at(9, true, false); }
+    #[kani::proof] #[kani::stub(icon_estimate, icon_stub)] fn c01_cpc_icon_nest_ub_at_lgk_9() { cpc_nest_at(9, true, true); }
+    #[kani::proof] fn c01_cpc_hip_nest_lb_at_lgk_10() { cpc_nest_at(10, false, false); }
+    #[kani::proof] fn c01_cpc_hip_nest_ub_at_lgk_10() { cpc_nest_at(10, false, true); }
+    #[kani::proof] #[kani::stub(icon_estimate, icon_stub)] fn c01_cpc_icon_nest_lb_at_lgk_10() { cpc_nest_at(10, true, false); }
+    #[kani::proof] #[kani::stub(icon_estimate, icon_stub)] fn c01_cpc_icon_nest_ub_at_lgk_10() { cpc_nest_at(10, true, true); }
+    #[kani::proof] fn c01_cpc_hip_nest_lb_at_lgk_11() { cpc_nest_at(11, false, false); }
+    #[kani::proof] fn c01_cpc_hip_nest_ub_at_lgk_11() { cpc_nest_at(11, false, true); }
+    #[kani::proof] #[kani::stub(icon_estimate, icon_stub)] fn c01_cpc_icon_nest_lb_at_lgk_11() { cpc_nest_at(11, true, false); }
+    #[kani::proof] #[kani::stub(icon_estimate, icon_stub)] fn c01_cpc_icon_nest_ub_at_lgk_11() { cpc_nest_at(11, true, true); }
+    #[kani::proof] fn c01_cpc_hip_nest_lb_at_lgk_12() { cpc_nest_at(12, false, false); }
+    #[kani::proof] fn c01_cpc_hip_nest_ub_at_lgk_12() { cpc_nest_at(12, false, true); }
+    #[kani::proof] #[kani::stub(icon_estimate, icon_stub)] fn c01_cpc_icon_nest_lb_at_lgk_12() { cpc_nest_at(12, true, false); }
+    #[kani::proof] #[kani::stub(icon_estimate, icon_stub)] fn c01_cpc_icon_nest_ub_at_lgk_12() { cpc_nest_at(12, true, true); }
+    #[kani::proof] fn c01_cpc_hip_nest_lb_at_lgk_13() { cpc_nest_at(13, false, false); }
+    #[kani::proof] fn c01_cpc_hip_nest_ub_at_lgk_13() { cpc_nest_at(13, false, true); }
+    #[kani::proof] #[kani::stub(icon_estimate, icon_stub)] fn c01_cpc_icon_nest_lb_at_lgk_13() { cpc_nest_at(13, true, false); }
+    #[kani::proof] #[kani::stub(icon_estimate, icon_stub)] fn c01_cpc_icon_nest_ub_at_lgk_13() { cpc_nest_at(13, true, true); }
+    #[kani::proof] fn c01_cpc_hip_nest_lb_at_lgk_16() { cpc_nest_at(16, false, false); }
+    #[kani::proof] fn c01_cpc_hip_nest_ub_at_lgk_16() { cpc_nest_at(16, false, true); }
+    #[kani::proof] #[kani::stub(icon_estimate, icon_stub)] fn c01_cpc_icon_nest_lb_at_lgk_16() { cpc_nest_at(16, true, false); }
+    #[kani::proof] #[kani::stub(icon_estimate, icon_stub)] fn c01_cpc_icon_nest_ub_at_lgk_16() { cpc_nest_at(16, true, true); }
+    #[kani::proof] fn c01_cpc_hip_nest_lb_at_lgk_17() { cpc_nest_at(17, false, false); }
+    #[kani::proof] fn c01_cpc_hip_nest_ub_at_lgk_17() { cpc_nest_at(17, false, true); }
+    #[kani::proof] #[kani::stub(icon_estimate, icon_stub)] fn c01_cpc_icon_nest_lb_at_lgk_17() { cpc_nest_at(17, true, false); }
+    #[kani::proof] #[kani::stub(icon_estimate, icon_stub)] fn c01_cpc_icon_nest_ub_at_lgk_17() { cpc_nest_at(17, true, true); }
+    #[kani::proof] fn c01_cpc_hip_nest_lb_at_lgk_18() { cpc_nest_at(18, false, false); }
+    #[kani::proof] fn c01_cpc_hip_nest_ub_at_lgk_18() { cpc_nest_at(18, false, true); }
+    #[kani::proof] #[kani::stub(icon_estimate, icon_stub)] fn c01_cpc_icon_nest_lb_at_lgk_18() { cpc_nest_at(18, true, false); }
+    #[kani::proof] #[kani::stub(icon_estimate, icon_stub)] fn c01_cpc_icon_nest_ub_at_lgk_18() { cpc_nest_at(18, true, true); }
+    #[kani::proof] fn c01_cpc_hip_nest_lb_at_lgk_19() { cpc_nest_at(19, false, false); }
+    #[kani::proof] fn c01_cpc_hip_nest_ub_at_lgk_19() { cpc_nest_at(19, false, true); }
+    #[kani::proof] #[kani::stub(icon_estimate, icon_stub)] fn c01_cpc_icon_nest_lb_at_lgk_19() { cpc_nest_at(19, true, false); }
+    #[kani::proof] #[kani::stub(icon_estimate, icon_stub)] fn c01_cpc_icon_nest_ub_at_lgk_19() { cpc_nest_at(19, true, true); }
+    #[kani::proof] fn c01_cpc_hip_nest_lb_at_lgk_20() { cpc_nest_at(20, false, false); }
+    #[kani::proof] fn c01_cpc_hip_nest_ub_at_lgk_20() { cpc_nest_at(20, false, true); }
+    #[kani::proof] #[kani::stub(icon_estimate, icon_stub)] fn c01_cpc_icon_nest_lb_at_lgk_20() { cpc_nest_at(20, true, false); }
+    #[kani::proof] #[kani::stub(icon_estimate, icon_stub)] fn c01_cpc_icon_nest_ub_at_lgk_20() { cpc_nest_at(20, true, true); }
+    #[kani::proof] fn c01_cpc_hip_nest_lb_at_lgk_21() { cpc_nest_at(21, false, false); }
+    #[kani::proof] fn c01_cpc_hip_nest_ub_at_lgk_21() { cpc_nest_at(21, false, true); }
+    #[kani::proof] #[kani::stub(icon_estimate, icon_stub)] fn c01_cpc_icon_nest_lb_at_lgk_21() { cpc_nest_at(21, true, false); }
+    #[kani::proof] #[kani::stub(icon_estimate, icon_stub)] fn c01_cpc_icon_nest_ub_at_lgk_21() { cpc_nest_at(21, true, true); }
+    #[kani::proof] fn c01_cpc_hip_nest_lb_at_lgk_22() { cpc_nest_at(22, false, false); }
+    #[kani::proof] fn c01_cpc_hip_nest_ub_at_lgk_22() { cpc_nest_at(22, false, true); }
+    #[kani::proof] #[kani::stub(icon_estimate, icon_stub)] fn c01_cpc_icon_nest_lb_at_lgk_22() { cpc_nest_at(22, true, false); }
+    #[kani::proof] #[kani::stub(icon_estimate, icon_stub)] fn c01_cpc_icon_nest_ub_at_lgk_22() { cpc_nest_at(22, true, true); }
+    #[kani::proof] fn c01_cpc_hip_nest_lb_at_lgk_23() { cpc_nest_at(23, false, false); }
+    #[kani::proof] fn c01_cpc_hip_nest_ub_at_lgk_23() { cpc_nest_at(23, false, true); }
+    #[kani::proof] #[kani::stub(icon_estimate, icon_stub)] fn c01_cpc_icon_nest_lb_at_lgk_23() { cpc_nest_at(23, true, false); }
+    #[kani::proof] #[kani::stub(icon_estimate, icon_stub)] fn c01_cpc_icon_nest_ub_at_lgk_23() { cpc_nest_at(23, true, true); }
+    #[kani::proof] fn c01_cpc_hip_nest_lb_at_lgk_24() { cpc_nest_at(24, false, false); }
+    #[kani::proof] fn c01_cpc_hip_nest_ub_at_lgk_24() { cpc_nest_at(24, false, true); }
+    #[kani::proof] #[kani::stub(icon_estimate, icon_stub)] fn c01_cpc_icon_nest_lb_at_lgk_24() { cpc_nest_at(24, true, false); }
+    #[kani::proof] #[kani::stub(icon_estimate, icon_stub)] fn c01_cpc_icon_nest_ub_at_lgk_24() { cpc_nest_at(24, true, true); }
+    #[kani::proof] fn c01_cpc_hip_nest_lb_at_lgk_25() { cpc_nest_at(25, false, false); }
+    #[kani::proof] fn c01_cpc_hip_nest_ub_at_lgk_25() { cpc_nest_at(25, false, true); }
+    #[kani::proof] #[kani::stub(icon_estimate, icon_stub)] fn c01_cpc_icon_nest_lb_at_lgk_25() { cpc_nest_at(25, true, false); }
+    #[kani::proof] #[kani::stub(icon_estimate, icon_stub)] fn c01_cpc_icon_nest_ub_at_lgk_25() { cpc_nest_at(25, true, true); }
